@@ -19,6 +19,8 @@ MODULES = {
     "C07": ("c07", "run"),
     "C11": ("c11", "run"),
     "C12": ("c12", "run"),
+    "C13": ("c13_c14", "run_c13"),
+    "C14": ("c13_c14", "run_c14"),
     "C17": ("lockstep", "run_c17"),
     "C18": ("c18", "run"),
     "C20": ("c20", "run"),
